@@ -21,15 +21,16 @@ theorem glob_star_k : Glob.matched [42] [107] = true := by decide
 theorem glob_star_b : Glob.matched [42] [98] = true := by decide
 
 /-- `SCAN 0 MATCH * COUNT 10 TYPE string` finds the key ... -/
-theorem setState_scan : (Api.scan setState 0 0 [42] 10 1).2 = .many [.int 1, .slist [[107]]] := by
+theorem setState_scan : (Api.scan setState 0 0 [42] 10 1).2 = .many [.int 0, .slist [[107]]] := by
   simp [Api.scan, Api.scan.go, setState, wrap64, int64Max, glob_star_k, Meta.expired, modMeta, getMeta,
     AList.get?, putMeta, AList.set]
 
-/-- ... but not after a close/open: the cached type of a reloaded record is 0 until first use -/
+/-- ... and also after a close/open: the record comes back without a cached type, SCAN loads it -/
 theorem setState_scan_reopen :
-    (Api.scan (reopen (close setState 0)) 0 0 [42] 10 1).2 = .many [.int 1, .slist []] := by
+    (Api.scan (reopen (close setState 0)) 0 0 [42] 10 1).2 = .many [.int 0, .slist [[107]]] := by
   simp [close, flush, reopen, setState, Meta.expired, Meta.isOk, Meta.isModified, persist, diskSet, encodeKey,
-    putVarint_zero, AList.set, putMeta, syncShared, AList.get?,
+    putVarint_zero, AList.set, putMeta, syncShared, AList.get?, loadValue, diskGet, encodeEntry, encodeVal,
+    decodeEntry, Val.typeCode, Meta.setValue,
     Api.scan, Api.scan.go, wrap64, int64Max, glob_star_k, modMeta, getMeta]
 
 theorem setState_inv (t : Int) : StoreInv setState t := by
@@ -80,13 +81,18 @@ theorem expState_inv : StoreInv expState 10 := by
       rcases hidx k1 m1 h1 with ⟨rfl, rfl⟩ | ⟨rfl, rfl⟩ <;>
         rcases hidx k2 m2 h2 with ⟨rfl, rfl⟩ | ⟨rfl, rfl⟩ <;> simp at ho ⊢
 
-/-- `SCAN 1`: the cursor is a position in the index, which still holds the expired record ... -/
-theorem expState_scan : (Api.scan expState 10 1 [42] 10 0).2 = .many [.int 2, .slist [[98]]] := by
+/-- `SCAN 0 COUNT 1` visits the expired record only and hands out cursor 2 ... -/
+theorem expState_scan_first : (Api.scan expState 10 0 [42] 1 0).2 = .many [.int 2, .slist []] := by
   simp [Api.scan, Api.scan.go, expState, wrap64, int64Max, glob_star_b, Meta.expired, modMeta, getMeta,
     AList.get?, putMeta, AList.set]
 
-/-- ... and no longer after the pass has unlinked it -/
-theorem expState_scan_gc : (Api.scan (gc expState 10) 10 1 [42] 10 0).2 = .many [.int 0, .slist []] := by
+/-- ... `SCAN 2` then reports the live key "b" ... -/
+theorem expState_scan : (Api.scan expState 10 2 [42] 10 0).2 = .many [.int 0, .slist [[98]]] := by
+  simp [Api.scan, Api.scan.go, expState, wrap64, int64Max, glob_star_b, Meta.expired, modMeta, getMeta,
+    AList.get?, putMeta, AList.set]
+
+/-- ... but not if a pass has unlinked the expired record in between: position 2 is past the end -/
+theorem expState_scan_gc : (Api.scan (gc expState 10) 10 2 [42] 10 0).2 = .many [.int 0, .slist []] := by
   simp [gc, expState, Meta.expired, Meta.isOk, Meta.isModified, persist, diskSet, unpersist, AList.erase,
     encodeKey, putVarint_zero, AList.set, putMeta, syncShared, AList.get?, List.find?,
     Api.scan, Api.scan.go, wrap64, int64Max, glob_star_b, modMeta, getMeta]
